@@ -2307,6 +2307,8 @@ class Meteo(Output):
         minlabels = [tick.label1 for tick in mpl.gca().xaxis.get_minor_ticks()]
         for i in minlabels:
             i.set_fontsize(self.tick_font_size)
+            if self.xrot is not None:
+                i.set_rotation(self.xrot)
 
         # Date labels
         majlabels = [tick.label1 for tick in mpl.gca().xaxis.get_major_ticks()]
